@@ -67,6 +67,7 @@ func genRouting(p proto, t *simrt.Tape, tier string) *ccCfg {
 	cfg.stall = t.Coin(1, 4)
 	cfg.hb = true
 	cfg.logger = t.Coin(1, 2)
+	cfg.raw = p.Name() == "v4" && t.Coin(1, 4)
 	T := cfg.T
 	cfg.span = T * time.Duration((int64(1)<<uint(cfg.tries))+1)
 	for i := 0; i < ncallers; i++ {
@@ -134,6 +135,7 @@ func genLiveness(p proto, t *simrt.Tape, tier string) *ccCfg {
 	}
 	cfg.hb = true
 	cfg.logger = t.Coin(1, 2)
+	cfg.raw = p.Name() == "v4" && t.Coin(1, 4)
 	ncallers := 1 + t.Weighted(4, 3, 2, 1)
 	cfg.pool = poolOf(p, 1+t.Weighted(1, 2, 3, 2))
 	if t.Coin(1, 5) {
